@@ -29,15 +29,17 @@ func rangeToArrayString(b []byte) ([]string, error) {
 	i2, e2 := strconv.Atoi(split[1])
 
 	if e1 == nil && e2 == nil {
+		// zero padding applies when either bound is written with leading zeros
+		l := zeroPadWidth(split[0], split[1])
+
 		switch {
 		case i1 < i2:
 			a := make([]string, i2-i1+1)
-			if split[0][0] != '0' {
+			if l == 0 {
 				for i := range a {
 					a[i] = strconv.Itoa(i + i1)
 				}
 			} else {
-				l := len(split[0])
 				s := "%0" + strconv.Itoa(l) + "d"
 				for i := range a {
 					a[i] = fmt.Sprintf(s, i+i1)
@@ -47,12 +49,11 @@ func rangeToArrayString(b []byte) ([]string, error) {
 
 		case i1 > i2:
 			a := make([]string, i1-i2+1)
-			if split[1][0] != '0' {
+			if l == 0 {
 				for i := range a {
 					a[i] = strconv.Itoa(i1 - i)
 				}
 			} else {
-				l := len(split[1])
 				s := "%0" + strconv.Itoa(l) + "d"
 				for i := range a {
 					a[i] = fmt.Sprintf(s, i1-i)
@@ -62,10 +63,9 @@ func rangeToArrayString(b []byte) ([]string, error) {
 
 		default:
 			a := make([]string, 1)
-			if split[1][0] != '0' {
+			if l == 0 {
 				a[0] = strconv.Itoa(i1)
 			} else {
-				l := len(split[1])
 				s := "%0" + strconv.Itoa(l) + "d"
 				a[0] = fmt.Sprintf(s, i1)
 			}
@@ -242,6 +242,22 @@ func rangeToArrayString(b []byte) ([]string, error) {
 	}
 
 	return nil, fmt.Errorf("unable to auto-detect range in `%s`", string(b))
+}
+
+// zeroPadWidth returns the width of the widest bound that is written with
+// leading zeros (eg `03`), or 0 if neither bound is zero padded.
+func zeroPadWidth(start, end string) int {
+	width := 0
+
+	if len(start) > 1 && start[0] == '0' {
+		width = len(start)
+	}
+
+	if len(end) > 1 && end[0] == '0' && len(end) > width {
+		width = len(end)
+	}
+
+	return width
 }
 
 func rangeToArrayNumber(b []byte) ([]int, bool, error) {
